@@ -245,6 +245,12 @@ def wrap_modeling(a, log):
             log["beta_t"] = np.array(a.beta_t, dtype=float).copy()
             log["S_at_modeling"] = list(a.S)
         log["regions"] = region_snapshot(a.design_space)
+        if hasattr(a, "compute_pessimistic_set"):
+            # a pure function of the displayed regions and the current S, P (VOGP / eps-PAL / VOGP_AD)
+            try:
+                log["pess_impl"] = sorted(int(x) for x in a.compute_pessimistic_set())
+            except Exception as e:
+                log["pess_impl"] = "EXC:" + type(e).__name__
     a.modeling = wrapped
 
 
